@@ -449,7 +449,7 @@ def c07_one(gname, n, comp, work):
 
 def run_c07(pid, tier, rep, deadline_s):
     q = tier == 'quick'
-    plan = [('stars', 4 if q else 6), ('expr', 3 if q else 4), ('recovery', 4 if q else 5), ('numbers', 3 if q else 5)]
+    plan = [('stars', 4 if q else 6), ('expr', 3 if q else 4), ('recovery', 4 if q else 5), ('numbers', 3 if q else 5), ('nul', 4 if q else 6)]
     work = os.path.join(BUILD, 'run-C07-%s%s' % (tier, ('-%d' % os.getpid()) if _SCRATCH else '')); shutil.rmtree(work, ignore_errors=True); os.makedirs(work)
     jobs = [(g, n, c) for (g, n) in plan for c in ('g++', 'clang++')]
     from concurrent.futures import ThreadPoolExecutor
